@@ -235,7 +235,10 @@ def plan(rng, tier):
     return {"cfg": cfg, "base": base,
             "a": _edits(rng, nkeys, nvals, mapping, present),
             "b": _edits(rng, nkeys, nvals, mapping, present),
-            "malformed": rng.randrange(40) if rng.random() < 0.08 else None}
+            "malformed": rng.randrange(40) if rng.random() < 0.08 else None,
+            # triples in which one side (or both) wrote its node back
+            # unaltered, handed to the resolver directly
+            "degenerate": rng.random() < 0.3}
 
 
 def simplify(plan):
@@ -458,6 +461,52 @@ def _one_order(plan, order, dom, cfg, ctx):
     return len(recs)
 
 
+def _degenerate(plan, dom, cfg, ctx):
+    """(old, old, old), (old, x, old), (old, old, x), (old, x, x) with x the
+    root's record after client a's edits: a transaction that registered a
+    node and wrote it back unaltered (changed and changed back) is a state
+    like any other -- a multi-leaf tree state is refused, a leaf merged by
+    the rule"""
+    from ..world import SimStorage, SimConnection, resolve_class
+    kind, impl = cfg["kind"], cfg["impl"]
+    mapping = is_mapping(kind)
+    st = SimStorage(cfg.get("protocol", 3))
+    c0 = SimConnection(st, impl)
+    t = dom.new(kind, impl)
+    oid = c0.add(t)
+    for k, v in plan["base"]:
+        if mapping:
+            t[dom.key(k)] = dom.val(v)
+        else:
+            t.add(dom.key(k))
+        if cfg["where"] == "multi":
+            c0.commit()
+    c0.commit()
+    if c0.hazards:
+        raise Precondition("known C04 finding: inline-duplicate")
+    r0 = st.revs[oid][-1][1]
+    _apply_edits(t, plan["a"], dom, mapping)
+    c0.commit()
+    if c0.hazards:
+        raise Precondition("known C04 finding: inline-duplicate")
+    r1 = st.revs[oid][-1][1]
+    for trip in ((r0, r0, r0), (r0, r1, r0), (r0, r0, r1), (r0, r1, r1)):
+        refs = {}
+        (modname, name), old = st._state(trip[0], refs, impl)
+        _, com = st._state(trip[1], refs, impl)
+        _, new = st._state(trip[2], refs, impl)
+        klass = resolve_class(modname, name, impl)
+        oc = _outcome_of(lambda: klass.__new__(klass)._p_resolveConflict(
+            old, com, new))
+        rec = {"cls": name, "mod": modname, "old": old, "com": com,
+               "new": new, "impl": impl,
+               "outcome": ("ok", oc[1]) if oc[0] == "ok" else (
+                   ("exc", "BTreesConflictError", oc[1])
+                   if oc[0] == "conflict" else ("exc", oc[1], None))}
+        ctx.fault("written-back-unaltered")
+        _check_rec(rec, dom, cfg, ctx)
+
+
 def execute(plan, ctx):
     from .. import env
     cfg = plan["cfg"]
@@ -468,4 +517,6 @@ def execute(plan, ctx):
     n += _one_order(plan, "ba", dom, cfg, ctx)
     if plan.get("malformed") is not None:
         _malformed(plan, dom, cfg, ctx)
+    if plan.get("degenerate"):
+        _degenerate(plan, dom, cfg, ctx)
     ctx.probe("seam-calls", n)
